@@ -164,6 +164,13 @@ Definition run_square_maps (i : N) : list N :=
 
 (* `I 2` lines: a state built through the public constructors (GameState::new, PlayPhase::new,
    PieceBoard::new) with from-scratch hashes: p1 e m h d c r side move_no step kind sq piece trapped *)
+Fixpoint take_boards (n : nat) (l : list N) : list pbs * list N :=
+  match n, l with
+  | S n', wp1 :: we :: wm :: wh :: wd :: wc :: wr :: r =>
+    let '(bs, rest) := take_boards n' r in (pb_new wp1 we wm wh wd wc wr :: bs, rest)
+  | _, _ => ([], l)
+  end.
+
 Definition state_of_new (l : list N) : option state :=
   match l with
   | wp1 :: we :: wm :: wh :: wd :: wc :: wr :: sd :: mv :: stp :: k :: sq :: pc :: tr :: extra =>
@@ -173,9 +180,17 @@ Definition state_of_new (l : list N) : option state :=
       let gold := negb (sd =? 0) in
       let h := z_from_piece_board b gold stp in
       let h0 := z_from_piece_board b gold 0 in
-      (* optional tail: explicit turn-start hash, then the repetition history oldest first *)
-      let '(ih, hs) := match extra with [] => (h0, [h0]) | x :: r => (x, rev r) end in
-      Some (mkstate gold mv (PlayPhase (mkplay (repeat b (N.to_nat stp)) st ih hs (negb (tr =? 0)))) b h)
+      (* optional tail: explicit turn-start hash; number of earlier boards and their 7 words each (oldest first;
+         none = `step` copies of the board); then the repetition history, oldest first *)
+      let '(ih, pv, hs) :=
+        match extra with
+        | [] => (h0, repeat b (N.to_nat stp), [h0])
+        | [x] => (x, repeat b (N.to_nat stp), [])
+        | x :: np :: r =>
+          let boards := take_boards (N.to_nat np) r in
+          (x, (if np =? 0 then repeat b (N.to_nat stp) else fst boards), rev (snd boards))
+        end in
+      Some (mkstate gold mv (PlayPhase (mkplay pv st ih hs (negb (tr =? 0)))) b h)
     | None => None
     end
   | _ => None
